@@ -425,7 +425,10 @@ impl<'a> Run<'a> {
             }
             PsStep::Close => {
                 if let Some(tx) = self.tx.as_mut() {
-                    tx.close_channel();
+                    // the way Server::shutdown does it: through the server's `topic::Sender`
+                    // wrapper, on the topic map's copy, while another copy (here: the harness's
+                    // own, standing for a registration in flight) is still alive
+                    selium_server::topic::Sender::<Frame, SeliumError>::Pubsub(tx.clone()).close_channel();
                     self.closed = true;
                     self.out.fault("registration_channel_closed");
                 }
